@@ -24,7 +24,7 @@ from vlib import log
 from eng_rbc import tla_val
 
 MON = {
-    "C01": ["KeyAgreement", "AllSubsetsVerify", "HonestRunCompletes", "NoPanicInUse", "EveryParticipantGotValidSig"],
+    "C01": ["KeyAgreement", "AllSubsetsVerify", "HonestRunCompletes", "NoCrash", "NoPanicInUse", "EveryParticipantGotValidSig", "NoMessageBeforeRegistered", "InitBeforeFirstMessage"],
     "C05": ["KeyAgreement", "AllSubsetsVerify", "RevealOnlyAfterAllCommits", "CommitmentBinding", "EveryCallReturns", "NoCrash", "NoPanicInUse"],
     "C11": ["EveryCallReturns", "NoCrash"],
 }
@@ -72,9 +72,10 @@ def tlc_dkg(wd, tr, pid):
 NOFAULT = dict(silent_peer=0, after=0, withhold_idx=-1)
 
 
-def case(scheme, mode, n, t, seed, policy="random", ids=None, deadline=6000, fault=None, byz=None, sign=True, cancel=0, msglen=2):
+def case(scheme, mode, n, t, seed, policy="random", ids=None, deadline=6000, fault=None, byz=None, sign=True, cancel=0, msglen=2, slow=None):
     return dict(scheme=scheme, mode=mode, n=n, t=t, ids=ids or list(range(1, n + 1)), seed=seed, policy=policy, deadline_ms=deadline,
-                fault=fault or NOFAULT, byz=byz, sign=sign and scheme in ("bls", "ps"), cancel_ms=cancel, msglen=msglen, cfg=0)
+                fault=fault or NOFAULT, byz=byz, sign=sign and scheme in ("bls", "ps"), cancel_ms=cancel, msglen=msglen, cfg=0,
+                slow_init=(slow or (0, 0))[0], slow_ms=(slow or (0, 0))[1])
 
 
 def cases_for(pid, tr, rng, drv, wd):
@@ -89,6 +90,11 @@ def cases_for(pid, tr, rng, drv, wd):
                     for i in range(reps):
                         pol = ["random", "newest", "oldest", "starve"][i % 4]
                         cs.append(case(scheme, mode, n, t, rng.randrange(1 << 30), policy=pol, msglen=1 + i % 3))
+        # a party whose back-end initialisation is slow: the barrier must keep everybody else from starting the protocol
+        for (n, t) in ([(3, 2)] if not big else [(3, 2), (4, 3), (5, 3)]):
+            for node in range(1, n + 1):
+                for scheme in ("bls", "ps"):
+                    cs.append(case(scheme, "loud", n, t, rng.randrange(1 << 30), slow=(node, 25 + 10 * node)))
         # orchestrated signing: the EdDSA adapter through KeyGen + Sign of the complete stack (threshold n-1: everybody signs)
         for (n, mode) in ([(3, "loud"), (3, "silent"), (2, "loud")] if not big else [(2, "loud"), (3, "loud"), (3, "silent"), (4, "loud"), (4, "silent")]):
             for i in range(3 if not big else 12):
@@ -118,6 +124,13 @@ def cases_for(pid, tr, rng, drv, wd):
                     for vs in victim_sets[:2]:
                         for mode in ("loud", "direct"):
                             cs.append(case("ps", mode, n, t, rng.randrange(1 << 30), deadline=600, byz=dict(node=bn, strategy=s, victims=vs), sign=True))
+        # the cross-check must cover EVERY t-subset: a larger n with one off-polynomial share to each single victim
+        for (n, t) in ([(5, 2)] if not big else [(5, 2), (5, 3), (6, 2), (6, 3)]):
+            for bn in (n, 1):
+                for v in [x for x in range(1, n + 1) if x != bn]:
+                    cs.append(case("bls", "direct", n, t, rng.randrange(1 << 30), deadline=600, byz=dict(node=bn, strategy="offpoly-share", victims=[v])))
+                    if big or v % 2 == 0:
+                        cs.append(case("ps", "direct", n, t, rng.randrange(1 << 30), deadline=900, byz=dict(node=bn, strategy="ps-offpoly-share-y-last", victims=[v]), sign=True))
     elif pid == "C11":
         # dry run to learn how many messages each peer sends in a complete run
         for scheme, mode in (("bls", "loud"), ("ps", "loud"), ("bls", "silent")) if big else (("bls", "loud"), ("ps", "silent")):
